@@ -43,18 +43,18 @@ theorem pyIndex_out_of_range {β} (l : List β) (a : Int) (h : a < -(l.length : 
 
 /-! ### `sortedIds`: the de-duplicated initial list has the same members -/
 
-theorem le_foldl_max (l : List Nat) (a : Nat) : a ≤ l.foldl max a := by
+theorem le_foldl_max_nat (l : List Nat) (a : Nat) : a ≤ l.foldl max a := by
   induction l generalizing a with
   | nil => exact Nat.le_refl _
   | cons y l ih => exact Nat.le_trans (Nat.le_max_left a y) (ih (max a y))
 
-theorem mem_le_foldl_max (l : List Nat) (a x : Nat) (hx : x ∈ l) : x ≤ l.foldl max a := by
+theorem mem_le_foldl_max_nat (l : List Nat) (a x : Nat) (hx : x ∈ l) : x ≤ l.foldl max a := by
   induction l generalizing a with
   | nil => cases hx
   | cons y l ih =>
     simp only [List.foldl]
     rcases List.mem_cons.mp hx with rfl | h
-    · exact Nat.le_trans (Nat.le_max_right a x) (le_foldl_max l _)
+    · exact Nat.le_trans (Nat.le_max_right a x) (le_foldl_max_nat l _)
     · exact ih _ h
 
 theorem mem_sortedIds (l : List Nat) (c : Nat) : c ∈ sortedIds l ↔ c ∈ l := by
@@ -62,7 +62,7 @@ theorem mem_sortedIds (l : List Nat) (c : Nat) : c ∈ sortedIds l ↔ c ∈ l :
   constructor
   · exact fun h => h.2
   · intro h
-    exact ⟨Nat.lt_succ_of_le (mem_le_foldl_max l 0 c h), h⟩
+    exact ⟨Nat.lt_succ_of_le (mem_le_foldl_max_nat l 0 c h), h⟩
 
 theorem nodup_sortedIds (l : List Nat) : (sortedIds l).Nodup :=
   List.Nodup.sublist List.filter_sublist List.nodup_range
